@@ -61,11 +61,18 @@ func (t *ClientTransport) Handshake() (hr *parser.HandshakeResponse, err error) 
 		t.url.Scheme = "ws"
 	}
 
+	// The options are shared by all the transports that are created with a configuration
+	// (the transport of the next connection, or the one of another client, might be dialing
+	// right now). They are not modified: the header goes into a copy.
+	var dialOptions websocket.DialOptions
+	if t.dialOptions != nil {
+		dialOptions = *t.dialOptions
+	}
 	if t.requestHeader != nil {
-		t.dialOptions.HTTPHeader = t.requestHeader.Header()
+		dialOptions.HTTPHeader = t.requestHeader.Header()
 	}
 
-	t.conn, _, err = websocket.Dial(context.Background(), t.url.String(), t.dialOptions)
+	t.conn, _, err = websocket.Dial(context.Background(), t.url.String(), &dialOptions)
 	if err != nil {
 		return
 	}
